@@ -15,8 +15,8 @@ mkdir -p "$w/repo" && (cd /repo && git archive HEAD | tar -x -C "$w/repo") && (c
 rsync -a /verif/lean/ "$w/lean/" 2>/dev/null
 (cd /verif/harness && go build -o "$w/factgen" ./cmd/factgen) || { echo "factgen does not build"; exit 2; }
 G="$w/lean/ParsleyVerif/Generated"
-"$w/factgen" -repo "$w/repo" -out "$w/Facts.lean" -out-conc "$w/FactsConc.lean" -out-ast "$w/FactsAst.lean" -out-fn "$w/FactsFn.lean" -out-prog "$w/FactsProg.lean" -out-core "$w/FactsCore.lean" -out-tree "$w/FactsTree.lean" || { echo "factgen failed"; exit 2; }
-for f in Facts FactsConc FactsAst FactsFn FactsProg FactsCore FactsTree; do
+"$w/factgen" -repo "$w/repo" -out "$w/Facts.lean" -out-conc "$w/FactsConc.lean" -out-ast "$w/FactsAst.lean" -out-fn "$w/FactsFn.lean" -out-prog "$w/FactsProg.lean" -out-core "$w/FactsCore.lean" -out-tree "$w/FactsTree.lean" -out-term "$w/FactsTerm.lean" || { echo "factgen failed"; exit 2; }
+for f in Facts FactsConc FactsAst FactsFn FactsProg FactsCore FactsTree FactsTerm; do
   if ! cmp -s "$w/$f.lean" "$G/$f.lean"; then echo "changed: Generated/$f.lean"; cp "$w/$f.lean" "$G/$f.lean"; fi
 done
 grep -h -A3 "^def untranslated\|^def extractionProblems" "$G"/*.lean | grep -v "^--" | tr '\n' ' ' | sed 's/def /\ndef /g' | grep -v ":= \[\] *$" | cut -c1-600
